@@ -147,9 +147,9 @@ theorem lookup_filter_ne {α : Type} (l : List (Nat × α)) (b b' : Nat) (hne : 
     by_cases hi : i = b
     · subst hi
       have : (b' == i) = false := by simpa using hne
-      simp [List.filter_cons, List.lookup_cons, this, ih]
+      simp [List.lookup_cons, this, ih]
     · have : (i != b) = true := by simpa using hi
-      simp only [List.filter_cons_of_pos this, List.lookup_cons, ih]
+      simp only [List.filter_cons, this, if_true, List.lookup_cons, ih]
 
 /-- **Batch handles are independent, also finished ones.**  Whatever is done with batch handle `b` —
 Set, Delete, Cancel, Commit, and in particular any of these *after* `b` has already been committed or
